@@ -23,7 +23,25 @@ Lemma gen_dedupe_is_model : forall p t, gen_dedupe_p p = dedupe_p p /\ gen_dedup
 Proof. intros; split; reflexivity. Qed.
 Lemma gen_join_is_model : forall p1 p2 t1 t2, gen_join_p p1 p2 = join_p p1 p2 /\ gen_join_t p1 p2 t1 t2 = join_t p1 p2 t1 t2.
 Proof. intros; split; reflexivity. Qed.
-Lemma gen_carry_boundary_is_model : forall OF NF b, gen_carry_boundary OF NF b = carry_boundary OF NF b.
+Lemma gen_carry_boundary_is_model : forall nv OF NF b, gen_carry_boundary nv OF NF b = lookup_boundary nv OF NF b.
+Proof. reflexivity. Qed.
+
+Lemma gen_remap_is_model : forall canon nslots newp F F' t2f' f2t0 f npts t t',
+  gen_remap_newf canon nslots newp F F' t2f' f2t0 f = newf canon nslots newp F F' t2f' f2t0 f /\
+  gen_remap_newp npts t t' = remap_newp npts t t'.
+Proof. intros; split; reflexivity. Qed.
+(* the coordinate functions of morphed see the ORIGINAL point array *)
+Lemma gen_morphed_is_model : forall R (p : list R) args, gen_morphed_rows p args = morphed_rows p args.
+Proof. reflexivity. Qed.
+Lemma gen_oriented_trace_is_model : forall flip t F facets,
+  gen_oriented_t flip t = swap_rows01 flip t /\ gen_trace_ix F facets = take_cols 0 F facets.
+Proof. intros; split; reflexivity. Qed.
+
+(* every mesh of m0 @ [m1, m2, ...] is shifted by the number of points of ALL meshes before it *)
+Lemma gen_matmul_offset_is_model : forall lens j, gen_matmul_offset lens j = matmul_offset lens j.
+Proof. reflexivity. Qed.
+(* the centre nodes of to_meshtri(style='x') are numbered from the number of points *)
+Lemma gen_quad_x_base_is_npts : forall npts maxt1, gen_quad_x_base npts maxt1 = npts.
 Proof. reflexivity. Qed.
 
 (* ---- quadrilateral -> 2 triangles: the children's signed areas add up to the parent's, for EVERY quadrilateral *)
